@@ -5,7 +5,10 @@
    on the operand values, operands left to right; && || ?: are jumps.  Definitions only.
 
    A node for which the emitter has no case makes the whole compilation abort
-   (assert(0)): rt_eval = Crash EmitAssert, decided before anything runs. *)
+   (assert(0)): rt_eval = Crash EmitAssert, decided before anything runs.  Since /repo 2ca194c
+   (an item enumerator operand is typed int) this cannot happen to a tree the typechecker
+   accepts: ConstredProofs.well_typed_is_emitted (ty_of e = Some t -> emit_ok e = true); emit_ok
+   stays in the definition for the trees ty_of rejects. *)
 From Coq Require Import ZArith Bool.
 From NV Require Import Arith.NumTy Arith.Bits Arith.IntOps Arith.FloatOps Arith.VMOps Arith.Promote.
 Local Open Scope Z_scope.
